@@ -39,7 +39,7 @@ ASSUMPTIONS = ['SQLite 3.40 catalog PRAGMAs (table_info, index_list, index_info,
                'case-insensitive, quoted PostgreSQL/Oracle names case-sensitive) and namespaces are my transcription of the manuals',
                'the DDL parser is cross-validated on every accepted SQLite case: the parsed SQLite script must equal the PRAGMA catalog']
 SHARDS = {'quick': 4, 'thorough': 16}
-MIN_EVALS = {'quick': 600, 'thorough': 12000}
+MIN_EVALS = {'quick': 600, 'thorough': 10000}
 CLASS_FLOORS = {'accepted': 0.6, 'dialect:sqlite': 0.2, 'dialect:postgres': 0.1, 'dialect:mysql': 0.1, 'dialect:oracle': 0.1,
                 'has:relationship': 0.4, 'has:explicit-name': 0.3}
 
@@ -308,7 +308,7 @@ def run(ctx):
         for tag, message in vio:
             ctx.fail(case, _msg(tag, message, case['dialect']))
 
-    ctx.run_test(t, dict(case=c26_gen.cases()), max_examples=ctx.scale(260, 2600), name='schemas')
+    ctx.run_test(t, dict(case=c26_gen.cases()), max_examples=ctx.scale(260, 2000), name='schemas')
 
 
 def _describe(e):
@@ -460,7 +460,30 @@ def _is_oracle_qualified_sequence_name(case, message):
     return any(repr((o, o + '_SEQ')) in message for o in owners)
 
 
+def _is_default_schema_qualified_duplicate(case, message):
+    """open finding C26-default-schema-qualified-duplicate: DBSchema.tables / DBSchema.names are keyed by the table name as
+    written, so a table declared as (default_schema, 'x') (e.g. _table_ = ('public', 'x') on PostgreSQL) and another table
+    whose plain name is 'x' (default name of entity X, or _table_ = 'x') are taken for two tables although the server resolves
+    both to the same one; generate_mapping accepts and the second CREATE TABLE fails."""
+    tag, dialect = _tag(message)
+    if tag != 'duplicate-name:table':
+        return False
+    default_schema = {'postgres': 'public', 'mysql': 'testdb', 'oracle': 'SCOTT', 'sqlite': 'main'}.get(dialect)
+    qualified = []
+    for e in case['spec']['entities']:
+        if isinstance(e['table'], list):
+            qualified.append(tuple(e['table']))
+        for a in e['attrs']:
+            if isinstance(a['opts'].get('table'), list):
+                qualified.append(tuple(a['opts']['table']))
+    for (sch, name) in qualified:
+        if sch == default_schema and ('table %r ' % ((sch, name),)) in message + ' ' and ('table %r ' % (name,)) in message + ' ':
+            return True
+    return False
+
+
 EXCLUSIONS = {
+    'default_schema_qualified_duplicate': _is_default_schema_qualified_duplicate,
     'names_differ_only_by_case': _is_names_differ_only_by_case,
     'oracle_qualified_sequence_name': _is_oracle_qualified_sequence_name,
     'explicit_name_too_long': _is_explicit_name_too_long,
